@@ -94,12 +94,51 @@ def _lib_row(r, cols=None):
     return {A.tag(k): v for k, v in r.items() if cols is None or k in cols}
 
 
+class _Timeout(Exception):
+    pass
+
+
+def _alarm(signum, frame):
+    raise _Timeout()
+
+
 def _work(chunk):
+    """Run one chunk with a per-predicate horizon: state carried over between predicates (a cached list that
+    keeps growing, say) must not hang the check."""
+    import signal
+
+    signal.signal(signal.SIGALRM, _alarm)
+    progress = {"viols": [], "evals": 0, "current": None}
+    try:
+        return _work_inner(chunk, progress)
+    except _Timeout:
+        fam, e = progress["current"]
+        progress["viols"].append(
+            {
+                "kind": "library-call-did-not-terminate",
+                "detail": "the library calls for one predicate (as_trivial / flatten_logical_and / Selection / conversion; "
+                "normally ~100 microseconds) ran for more than 20 s; rest of this chunk skipped",
+                "case": {"family": fam, "expr": A.to_jsonable(e)},
+                "program_str": A.fmt(e),
+                "finding": None,
+            }
+        )
+        return {"n": len(chunk), "evals": progress["evals"], "violations": progress["viols"]}
+    finally:
+        signal.alarm(0)
+
+
+def _work_inner(chunk, progress):
+    import signal
+
     ie = iteration.Engine(name="it")
-    viols = []
+    viols = progress["viols"]
     evals = 0
     full_rows = [_lib_row(r) for r in ROWS]
     for fam, e in chunk:
+        progress["current"] = (fam, e)
+        progress["evals"] = evals
+        signal.alarm(20)
         free = A.free_cols(e)
 
         def bad(kind, detail):
@@ -195,9 +234,24 @@ def run(tier, seed):
     fams = {}
     for f, _ in cases:
         fams[f] = fams.get(f, 0) + 1
-    results = par.pmap(_work, par.chunks(cases, 64))
+    try:
+        results = par.pmap(_work, par.chunks(cases, 256), stall_timeout=300)
+        stalled = None
+    except par.Stalled as st:
+        results, stalled = [], str(st)
     viols = [v for r in results for v in r["violations"]]
-    evals = sum(r["evals"] for r in results)
+    if stalled:
+        viols.append(
+            {
+                "kind": "library-call-did-not-terminate",
+                "detail": f"predicate checks stalled: {stalled}; a chunk of ~1000 predicates normally takes well under a second - "
+                "state carried over between library calls (e.g. a cached list that keeps growing) makes them blow up",
+                "case": {"family": "stall", "expr": ["plit", True]},
+                "program_str": "(whole run)",
+                "finding": None,
+            }
+        )
+    evals = max(1, sum(r["evals"] for r in results))
     nontrivial = sum(1 for f, e in cases if e[0] in ("and", "or", "not"))
     folded = 0
     cov = {
